@@ -70,7 +70,7 @@ func (c01OKErr) GRPCStatus() *status.Status { return status.New(codes.OK, "c01")
 func TestVerifC01ZrpcClient(t *testing.T) {
 	spec := verifc01.SiteSpec{Site: "zclient",
 		Good: []string{"nil", "g0", "g1", "g2", "g3", "g5", "g6", "g7", "g9", "g10", "g11", "g16", "gw5", "other", "deadline",
-			"wdeadline", "canceled", "brkopen"},
+			"wdeadline", "canceled", "brkopen", "wbrkopen"},
 		Bad: []string{"g4", "g8", "g12", "g13", "g14", "g15", "gw13", "gw4"}}
 	verifc01.Run(t, verifc01.Gen([]verifc01.SiteSpec{spec}, true), func(named bool) verifc01.Env {
 		sec := c01ZcSeq.Add(1)
